@@ -660,6 +660,20 @@ QFORMS = ['', ';q=0', ';q=0.0', ';q=0.000', ';q=1', ';q=1.0', ';q=0.5', ';q=.5',
           ' ;\tq=0.8', ';q=-0', ';q=0.', ';q=.0', ';q=2']
 QFORMS_ODD = [';q=1e3', ';q=nan', ';q=inf', ';q=1_0', ';q=\xa00.5', ';q=0.5\x1c', ';level=3;q=0', ';q=0;q=1', ';foo=0', ';foo=0.4',
               ';q=1e-400', ';q=0.' + '3' * 20, ';q=٠.٥', ';;q=0']
+# RFC 7231 weight = OWS ";" OWS "q=" qvalue, plus the sloppy spellings with blanks around '='; zero and non-zero values
+QFORMS_OWS = [a + ';' + b + 'q' + c + '=' + d + v for a in ('', ' ') for b in ('', ' ') for c in ('', ' ') for d in ('', ' ')
+              for v in ('0', '0.0', '0.000', '0.5')] + [';\tq\t=\t0', ';q\t=0.0', '; Q = 0', ';q = 0 ', ';q =0.000\t', ';  q  =  0']
+OWS = ['', '', '', ' ', '\t', '  ']
+ZEROS = ['0', '0.0', '0.000', '0.', '.0', '00', '0.00']
+NONZEROS = ['1', '1.0', '0.5', '.5', '0.001', '0.9', '1.000', '0.25']
+
+
+def gen_weight(rng):
+    v = rng.choice(ZEROS) if rng.random() < 0.45 else rng.choice(NONZEROS)
+    return (rng.choice(OWS) + ';' + rng.choice(OWS) + rng.choice(['q', 'q', 'q', 'Q']) + rng.choice(OWS) + '=' + rng.choice(OWS) + v +
+            rng.choice(OWS))
+
+
 SEPS = [',', ', ', ' , ', ',\t', ',,', ' ,  ']
 SUPPORTED_SETS = [['gzip', 'x-lz4', 'lz4'], ['gzip'], ['x-lz4', 'lz4'], [], ['lz4', 'gzip'], ['GZIP'], ['gzip', 'zstd']]
 
@@ -675,7 +689,12 @@ def gen_header(rng):
         if rng.random() < 0.25:
             name = rng.choice([' ', '\t', '', '\x0b', '\xa0', '  ']) + name + rng.choice([' ', '', '\t', '\x1c', '\x85'])
         q = rng.choice(QFORMS) if rng.random() < 0.85 else rng.choice(QFORMS_ODD)
-        if rng.random() < 0.15:
+        r = rng.random()
+        if r < 0.3:
+            q = gen_weight(rng)
+            if rng.random() < 0.15:     # several parameters
+                q = rng.choice([';level=3', ';x', '; a = b']) + q if rng.random() < 0.5 else q + rng.choice([';level=3', ';x', '; a = b'])
+        elif r < 0.45:
             q = ';q=' + rng.choice(['0.', '', '1.', '0', '1', '.']) + ''.join(rng.choice('0123456789') for _ in range(rng.randrange(4)))
         parts.append(name + q)
     sep = rng.choice(SEPS)
@@ -895,11 +914,11 @@ def run_headers(ctx, L, B):
     # exhaustive: every header of one or two elements over the core names x all weight forms
     names = ['gzip', 'x-lz4', 'identity', '*']
     elems = [n + q for n in names for q in QFORMS]
-    singles = elems + [n + q for n in ('gzip', 'lz4') for q in QFORMS_ODD]
+    singles = elems + [n + q for n in ('gzip', 'lz4') for q in QFORMS_ODD] + [n + q for n in ('gzip', 'x-lz4') for q in QFORMS_OWS]
     for h in singles:
         for sup in (SUPPORTED_SETS[0], SUPPORTED_SETS[2]):
             check_header_case(ctx, L, B, h, sup)
-    pair_q = QFORMS if ctx.tier == 'thorough' else QFORMS[:12] + QFORMS[-4:]
+    pair_q = (QFORMS if ctx.tier == 'thorough' else QFORMS[:12] + QFORMS[-4:]) + ['; q = 0', ';q =0.0', ';q= 0.000', ' ; q=0', ';q = 0.5']
     for n1, n2 in (('gzip', 'x-lz4'), ('x-lz4', 'gzip'), ('gzip', 'gzip'), ('gzip', 'lz4'), ('*', 'gzip')):
         for q1 in pair_q:
             for q2 in pair_q:
